@@ -41,13 +41,18 @@ const LIMIT: usize = 3;
 
 fn build_chain(env: &Env) -> Chain {
     let mut c = Chain::new(std::sync::Arc::clone(&env.consensus), scen::wavy_plan(6));
+    // 10 s between blocks, so that the median time of the tip and its own time differ in seconds
+    c.ts_step = 10_000;
     let acts: Vec<(u64, Act)> = (1..=8).map(|n| (n, Act::Mine('A'))).collect();
-    scen::extend_chain(&mut c, &env.scripts, 14, &acts);
+    // (longer than the 37 blocks of the median-time window)
+    scen::extend_chain(&mut c, &env.scripts, 45, &acts);
     c
 }
 
 fn new_sim(env: &Env, chain: &Chain, old: Option<Sim>) -> Sim {
-    let cfg = ClientCfg { last_n: 3, max_outbound: 2, cp_interval: 4, pending_limit: LIMIT, ..Default::default() };
+    // (the median time of the tip needs the headers of the last 37 blocks, which the client only has
+    // from the last-N headers of a proven state; the default last-N is 100)
+    let cfg = ClientCfg { last_n: 40, max_outbound: 2, cp_interval: 4, pending_limit: LIMIT, ..Default::default() };
     let mut world = World::new(vec![chain.clone()], cfg.cp_interval);
     world.add_peer(1, 0, chain.tip_number());
     world.add_peer(2, 0, chain.tip_number());
@@ -190,6 +195,26 @@ fn mutation_cases(env: &Env, chain: &Chain) -> Vec<(String, Vec<TransactionView>
             .output_data(Default::default())
             .build();
         case(&format!("valid/mature-since/{}", label), vec![], tx, true);
+    }
+    // timestamp since: mature up to the median time of the tip (the median of the 37 blocks
+    // tip-36 ..= tip is block tip-18), immature beyond it even if the tip's own timestamp is later
+    {
+        let secs = |n: u64| (world::BASE_TS + n * 10_000) / 1000;
+        let mid = chain.tip_number() - 18;
+        for (label, ts, ok) in [
+            ("valid/mature-since/absolute-timestamp/median-time", secs(mid), true),
+            ("immature-since/absolute-timestamp/median-time+10s", secs(mid + 1), false),
+            ("immature-since/absolute-timestamp/tip-time", secs(chain.tip_number()), false),
+        ] {
+            let since = 0x4000_0000_0000_0000u64 | ts;
+            let tx = ckb_types::core::TransactionBuilder::default()
+                .cell_dep(dep.clone())
+                .input(packed::CellInput::new(op0.clone(), since))
+                .output(packed::CellOutput::new_builder().capacity((cap0 - 1).pack()).lock(s.b.clone()).build())
+                .output_data(Default::default())
+                .build();
+            case(label, vec![], tx, ok);
+        }
     }
     case("no-inputs", vec![], build_tx(&[dep.clone()], &[], &[OutSpec::lock(&s.b, 100_0000_0000)], 12), false);
     case("no-outputs", vec![], build_tx(&[dep.clone()], &[op0.clone()], &[], 13), false);
@@ -534,7 +559,11 @@ pub(crate) fn run(opts: &Opts, report: &mut Report) {
             let mut old: Option<Sim> = None;
             for (label, pre, tx, expect_ok) in &cases {
                 crate::verif::props::shard::journal(label);
-                let mut sim = new_sim(&env, &chain, old.take());
+                // a fresh client with proven peers for every case (on a recycled, already synced
+                // store the peers could not be proven again before the chain grows, and the median
+                // time of the tip is computed from the headers of the proven states)
+                drop(old.take());
+                let mut sim = new_sim(&env, &chain, None);
                 let mut pre_ok = true;
                 for p in pre {
                     if sim.c().rpc_tx().send_transaction(p.data().into()).is_err() {
@@ -651,19 +680,21 @@ pub(crate) fn run(opts: &Opts, report: &mut Report) {
 pub(crate) fn debug_case() {
     let env = Env::dummy();
     let chain = build_chain(&env);
-    let cases = mutation_cases(&env, &chain);
-    let mut old: Option<Sim> = None;
-    for (label, _pre, tx, _ok) in cases.iter().take(5) {
-        let mut sim = new_sim(&env, &chain, old.take());
-        println!("== {}", label);
-        sim.cm().relay_connect(PeerIndex::new(1));
-        sim.pump_out();
-        let o = submit(&mut sim, tx);
-        println!("send {:?} est {:?} status {:?} pool {:?}", o.send, o.estimate, o.status, o.pool_cycles);
-        let r = panics::catch(|| sim.cm().tick_relay());
-        println!("tick: {:?}", r.err().map(|p| p.describe()));
-        sim.pump_out();
-        println!("relay msgs {}", sim.sent_log.iter().filter(|s| s.proto == Proto::Relay).count());
-        old = Some(sim);
+    let sim = new_sim(&env, &chain, None);
+    println!("{}", &sim.c().peers.verif_dump(client::now())[..2000.min(sim.c().peers.verif_dump(client::now()).len())]);
+    let swc = sim.c().swc();
+    use ckb_traits::HeaderFieldsProvider;
+    let mut h = chain.tip().hash();
+    for i in 0..40 {
+        match swc.get_header_fields(&h) {
+            Some(f) => {
+                println!("{} #{} ok", i, f.number);
+                h = f.parent_hash;
+            }
+            None => {
+                println!("{} missing header {:#x} (number {:?})", i, h, chain.number_of(&h));
+                break;
+            }
+        }
     }
 }
